@@ -470,6 +470,43 @@ def interaction_coverage(fam, strength, rows):
             "rows_examined": rows, "rows_until_all_covered": max(o[2] for o in outs) if covered == total else None}
 
 
+def v4_written_maxima_block():
+    """Every highest-severity vector of every macrovector written out in full (base metrics, E and
+    all three requirements explicit, Safety through MSI/MSA) - the vectors the specification's
+    severity distances are measured from - combined with every single Modified metric at every
+    value and with no Modified metric: a shortcut for "the vector is a highest-severity vector"
+    that looks at what is written instead of at what is effective shows here."""
+    from .ref import score4 as S4
+    A = []
+    for l1 in sorted(S4.MAX1):
+        for (av, pr, ui) in S4.MAX1[l1]:
+            for l2 in sorted(S4.MAX2):
+                for (ac, at) in S4.MAX2[l2]:
+                    d = {"AV": av, "PR": pr, "UI": ui, "AC": ac, "AT": at}
+                    A.append(("/".join("%s:%s" % (m, d[m]) for m in ("AV", "AC", "AT", "PR", "UI")), d))
+    B = []
+    for l36 in sorted(S4.MAX36):
+        for (vc, vi, va, cr, ir, ar) in S4.MAX36[l36]:
+            for l4 in sorted(S4.MAX4):
+                for (sc, si, sa) in S4.MAX4[l4]:
+                    for e in ("A", "P", "U"):
+                        d = {"VC": vc, "VI": vi, "VA": va, "SC": sc, "SI": si, "SA": sa, "E": e, "CR": cr, "IR": ir, "AR": ar}
+                        extra = {}
+                        for b in ("SI", "SA"):
+                            if d[b] == "S":
+                                d[b] = "H"
+                                extra["M" + b] = "S"
+                        d.update(extra)
+                        order = ["VC", "VI", "VA", "SC", "SI", "SA", "E", "CR", "IR", "AR", "MSI", "MSA"]
+                        B.append(("/".join("%s:%s" % (m, d[m]) for m in order if m in d), d))
+    C = [("", {})]
+    for m in T.V4_MODIFIED:
+        for v in T.V4[m]:
+            if v != "X":
+                C.append(("%s:%s" % (m, v), {m: v}))
+    return Block("v4.written_highest_severity_vectors_x_one_modified", "4.0", A, B, C, meta={"dedupe_fields": True})
+
+
 def layout_block(fam, twin=None):
     """Points for the layout sweeps (engine: two_move_layouts): all 27 values of the three impact
     metrics x a few values of the other mandatory metrics, with one temporal / threat and two
